@@ -10,7 +10,9 @@ EXPECT = {  # subject prefix -> checks expected to fire when the fix is undone
     'replaying a graph passes the keyword': ['C05'], 'sum(axis=...) of a traced': ['C03'], 'pullback of reshape': ['C03'],
     'pullback of outer': ['C03'], 'pullback of dot(matrix, vector)': ['C03'], 'pullback of tile': ['C03'], 'pullback of constant * UTPM': ['C03'],
     're-evaluating a traced in-place write': ['C03', 'C04'], 'a reverse sweep re-applies': ['C06'], 'pullback of ifft': ['C03'],
-    'eigenvector pullback of eigh': ['C03'], 'pullback of tan no longer': ['C06', 'C14'], 'x *= y when y is x': ['C14'], 'resets the eigenvector buffer': ['C08'], 'promote every integer seed': ['C09'], 'CGraph.gradient evaluates integer': ['C04'], 'UTPM.vecsym allocates': ['C17'], 'minimum/maximum of traced values': ['C10'], 'pullback of prod accumulates': ['C03'], 'expit of large arguments': ['C01'], 'constant array c is a view of x': ['C14'], 'constant b of mixed real/complex dtype': ['C07'], 'zero-dimensional integer array as exponent': ['C01'], 'forwards the rank threshold': ['C08'], 'in-place write with a constant array': ['C03'], 'pullback of symvec with UPLO': ['C03'], 'right hand side is broadcast': ['C03', 'C04'], 'promotes a NumPy scalar base': ['C02'], 'integer-typed matrices compute in floating point': ['C07'], 'keep the imaginary part of complex adjoints': ['C03'], 'imag() of a traced complex value': ['C03'], 'accepts a complex y for a real x': ['C03'], 'integer-typed points are computed in floating point': ['C16'], 'allocate their result with the length n': ['C13'], 'a view of x': ['C13'], 'x ** 2.0 is the polynomial': ['C02'], 'conversion helpers keep complex': ['C17'], 'zeros and ones accept a dtype given as a string': ['C10'], 'select instead of blending': ['C10'], 'extract_jac_vec for scalar': ['C09'],
+    'eigenvector pullback of eigh': ['C03'], 'pullback of tan no longer': ['C06', 'C14'], 'x *= y when y is x': ['C14'], 'resets the eigenvector buffer': ['C08'], 'promote every integer seed': ['C09'], 'CGraph.gradient evaluates integer': ['C04'], 'UTPM.vecsym allocates': ['C17'], 'minimum/maximum of traced values': ['C10'], 'pullback of prod accumulates': ['C03'], 'expit of large arguments': ['C01'], 'constant array c is a view of x': ['C14'], 'constant b of mixed real/complex dtype': ['C07'], 'zero-dimensional integer array as exponent': ['C01'], 'forwards the rank threshold': ['C08'], 'in-place write with a constant array': ['C03'], 'pullback of symvec with UPLO': ['C03'], 'right hand side is broadcast': ['C03', 'C04'], 'promotes a NumPy scalar base': ['C02'], 'integer-typed matrices compute in floating point': ['C07'], 'keep the imaginary part of complex adjoints': ['C03'], 'imag() of a traced complex value': ['C03'], 'accepts a complex y for a real x': ['C03'], 'integer-typed points are computed in floating point': ['C16'], 'allocate their result with the length n': ['C13'], 'a view of x': ['C13'], 'x ** 2.0 is the polynomial': ['C02'], 'conversion helpers keep complex': ['C17'], 'zeros and ones accept a dtype given as a string': ['C10'], 'select instead of blending': ['C10'], 'extract_jac_vec for scalar': ['C09'], 'overlaps the target or has leading unit axes': ['C03'], 'share adjoint memory are accumulated': ['C03'], 'pullbacks of trace of a non-square matrix': ['C03'], 'recorded with Python lists': ['C04'], 'outer and the LU based functions accept': ['C07'], 'extract_tensor contracts the direction axis': ['C09'], 'shift(s, out=buffer) clears': ['C17'], 'b ** z and x ** z with a complex polynomial': ['C02'], 'minimum and maximum promote mixed operand types': ['C10'], 'derivative terms of the special functions': ['C12'], 'ndarray2utpm keeps complex elements': ['C17'], 'nthderiv accepts a NumPy integer order': ['C16'], 'zeros, ones and reshape accept the shape': ['C13', 'C10'],
+    'absolute value of complex Taylor polynomials': ['C01', 'C03'],
+    'reshape converts the shape before': ['C13'],
 }
 
 
@@ -37,6 +39,11 @@ def main():
             fired = {c: v['exit'] for c, v in res['checks'].items()}
         except Exception:
             fired = {'error': r.stdout[-200:]}
+        if 'patch does not apply' in str(fired.get('error', '')):
+            # a later fix rewrote the same lines: this one cannot be undone in isolation any more (the later fix's own entry covers the site)
+            out.append({'commit': h, 'subject': subj[:70], 'result': 'cannot be undone in isolation: a later fix: commit touches the same lines'})
+            print(json.dumps(out[-1]), flush=True)
+            continue
         out.append({'commit': h, 'subject': subj[:70], 'checks_exit_when_fix_is_undone': fired, 'fires_again': any(v == 1 for v in fired.values() if isinstance(v, int))})
         print(json.dumps(out[-1]), flush=True)
     json.dump(out, open(os.path.join(HERE, 'fix_regressions.json'), 'w'), indent=1)
